@@ -78,6 +78,9 @@ func classify(kind byte, body []byte) string {
 	return classOf(&c)
 }
 
+// nested: module a includes submodule as0 only, which includes as (a submodule reached through another submodule)
+var nested bool
+
 func texts(c *cas, variant int, shared bool) map[string]string {
 	body := map[string]*strings.Builder{"a": {}, "as": {}, "b": {}, "c": {}}
 	present := map[key]bool{}
@@ -109,6 +112,9 @@ func texts(c *cas, variant int, shared bool) map[string]string {
 			if m == "b" && i.Key[0] != "b" || m == "a" && i.Key[0] == "c" {
 				continue
 			}
+			if nested && i.Home == "as" {
+				continue // module a does not include as itself: whether it (or an importer) may name as's definitions is the RFCs' business
+			}
 			fmt.Fprintf(body[m], "  leaf ref_%s_%s { type identityref { base %s; } }\n", i.Key[0], i.Key[1], i.Key.String())
 		}
 	}
@@ -124,8 +130,13 @@ func texts(c *cas, variant int, shared bool) map[string]string {
 			return s
 		}
 	}
+	inc, as0 := "include as;", ""
+	if nested {
+		inc, as0 = "include as0;", "submodule as0 { belongs-to a { prefix a; } include as; }\n"
+	}
 	return map[string]string{
-		"a":  "module a { namespace \"urn:a\"; prefix " + pa + "; import b { prefix b; } include as;\n" + fix(body["a"].String(), "a") + "}\n",
+		"as0": as0,
+		"a":   "module a { namespace \"urn:a\"; prefix " + pa + "; import b { prefix b; } " + inc + "\n" + fix(body["a"].String(), "a") + "}\n",
 		// the submodule imports b under a prefix of its own: prefixes resolve through the imports of the (sub)module that writes them
 		"as": "submodule as { belongs-to a { prefix a; } import b { prefix sb; }\n" + strings.ReplaceAll(body["as"].String(), " base b:", " base sb:") + "}\n",
 		"b":  "module b { namespace \"urn:b\"; prefix " + pb + ";\n" + fix(body["b"].String(), "b") + "}\n",
@@ -162,6 +173,9 @@ type obs struct {
 func run(t map[string]string, order []string) obs {
 	ms := yang.NewModules()
 	for _, n := range order {
+		if t[n] == "" {
+			continue
+		}
 		if err := ms.Parse(t[n], n+".yang"); err != nil {
 			return obs{perr: err}
 		}
@@ -204,8 +218,31 @@ func exec(kind byte, body []byte) *core.Verdict {
 	if !v0.OK || v0.Infra != "" {
 		return v0
 	}
+	nested = true
+	v2 := &core.Verdict{OK: true}
+	{
+		home := map[key]string{}
+		for _, i := range c.Ids {
+			home[i.Key] = i.Home
+		}
+		valid := true
+		for _, i := range c.Ids {
+			for _, b := range i.Bases {
+				if i.Home != "as" && home[b] == "as" {
+					valid = false // text outside the nested submodule naming one of its identities
+				}
+			}
+		}
+		if valid {
+			v2 = judgeVariant(&c, len(body), false)
+		}
+	}
+	nested = false
+	if !v2.OK || v2.Infra != "" {
+		return v2
+	}
 	v1 := judgeVariant(&c, len(body), true)
-	v1.N += v0.N
+	v1.N += v0.N + v2.N
 	if v1.Sample == nil {
 		v1.Sample = v0.Sample
 	}
@@ -216,12 +253,12 @@ func judgeVariant(c0 *cas, variant int, shared bool) *core.Verdict {
 	c := *c0
 	v := &core.Verdict{OK: true, Class: classOf(&c), NT: len(c.Ids) >= 2}
 	t := texts(&c, variant, shared)
-	text := t["a"] + t["as"] + t["b"] + t["c"]
+	text := t["a"] + t["as0"] + t["as"] + t["b"] + t["c"]
 	fail := func(sig, f string, a ...any) *core.Verdict {
 		v.OK, v.Sig, v.Detail = false, sig, fmt.Sprintf(f, a...)+"\n"+text
 		return v
 	}
-	orders := [][]string{{"a", "as", "b", "c"}, {"c", "b", "as", "a"}, {"b", "c", "a", "as"}, {"as", "a", "c", "b"}}
+	orders := [][]string{{"a", "as0", "as", "b", "c"}, {"c", "b", "as", "as0", "a"}, {"b", "c", "a", "as", "as0"}, {"as", "as0", "a", "c", "b"}}
 	var first obs
 	for k, ord := range orders {
 		o := run(t, ord)
